@@ -111,6 +111,10 @@ func (l *Linter) lintDeclareStatement(stmt *ast.DeclareStatement, ctx *context.C
 			Message:  err.Error(),
 		}
 		l.Error(err.Match(DECLARE_STATEMENT_DUPLICATED))
+	} else if l.ignore.IsEnable(UNUSED_VARIABLE) {
+		// Check ignored UNUSED_VARIABLE rule and mark as used,
+		// the unused variables are reported after the subroutine has been linted
+		ctx.Get(stmt.Name.Value) // nolint: errcheck
 	}
 
 	// Lint the value expression if present
